@@ -27,6 +27,16 @@ def spec():
         "Full": obj(["id", "displayName"], {"id": st, "displayName": st, "isActive": {"type": "boolean"}, "class": st}),
         "Card": {"oneOf": [{"$ref": "#/components/schemas/Summary"}, {"$ref": "#/components/schemas/Full"}]},
         "CardRev": {"oneOf": [{"$ref": "#/components/schemas/Full"}, {"$ref": "#/components/schemas/Summary"}]},
+        # variants whose schema names are not canonical class names (the mapping must still lead to their models)
+        "cat_v": obj(["kind", "name"], {"kind": st, "name": st, "lives": it}),
+        "Dog2": obj(["kind", "name"], {"kind": st, "name": st, "barkVolume": it}),
+        "LegacyPet": {"oneOf": [{"$ref": "#/components/schemas/cat_v"}, {"$ref": "#/components/schemas/Dog2"}],
+                      "discriminator": {"propertyName": "kind", "mapping": {"cat": "#/components/schemas/cat_v", "dog": "#/components/schemas/Dog2"}}},
+        # several values per variant while the discriminator property is a plain string (the enum comes from the mapping alone)
+        "Kit2": obj(["species", "name"], {"species": st, "name": st}),
+        "Pup2": obj(["species", "name"], {"species": st, "name": st}),
+        "Animal2": {"oneOf": [{"$ref": "#/components/schemas/Kit2"}, {"$ref": "#/components/schemas/Pup2"}],
+                    "discriminator": {"propertyName": "species", "mapping": {"cat": "#/components/schemas/Kit2", "kitten": "#/components/schemas/Kit2", "dog": "#/components/schemas/Pup2"}}},
         "OptA": obj([], {"x": it}),
         "OptB": obj([], {"y": it}),
         "AllOpt": {"anyOf": [{"$ref": "#/components/schemas/OptA"}, {"$ref": "#/components/schemas/OptB"}]},
